@@ -88,7 +88,7 @@ def sparsify(b, rng):
             # the disk fails under a running statement instead (harness/iofault: EIO from the r-th page read / write of the
             # operation - an error out of rows.Next()/Scan() or out of the COMMIT, not out of Query/Exec)
             if o.get("fault", {}).get("kind") == "read" and rng.random() < 0.35:
-                o["fault"] = dict(kind="ioread", at=0, r=rng.randrange(1, 9))
+                o["fault"] = dict(kind="ioread", at=0, r=rng.randrange(1, 9), frac=rng.choice([0, rng.randrange(1, 1000), rng.randrange(1, 1000)]))
             elif o.get("fault", {}).get("kind") == "stmt" and rng.random() < 0.12:
                 o["fault"] = dict(kind="iowrite", at=0, r=rng.choice([1, 1, 2, 3]))
         elif o["op"] == "reorg":
@@ -133,6 +133,35 @@ def fixture_behaviours(kind, rng):
         lastleaves = sum(1 for e in m["ops"][-1]["evs"] if e["t"] == "leaf")
         out.append(dict(base, ops=list(m["ops"]) + [dict(op="reorg", **{"from": m["ops"][-1]["num"]}),
                                                      dict(op="process", num=last + 1, fault=none, evs=[dict(t="leaf", x=102, dc=nleaf - lastleaves)])]))
+    return out
+
+
+def fault_sweep(kind, rng, thorough):
+    """one small history per kind, and in it one block whose processing is hit by a fault at *every* position in turn: the
+    failing call sweeps over the whole operation (the disk under a running statement: page reads and page writes, harness/iofault;
+    a statement that cannot be compiled: harness/sqlfault), then the same block is processed again without a fault and the
+    history goes on. Positions are fractions of the calls the operation makes (counted on the twin first)."""
+    none = dict(kind="none", at=0)
+    def P(num, evs, fault=none):
+        return dict(op="process", num=num, fault=fault, evs=evs)
+    if kind == "bridge":
+        pre = [P(2, [dict(t="leaf", x=1, dc=0), dict(t="leaf", x=2, dc=1), dict(t="leaf", x=3, dc=2)])]
+        hit = [dict(t="leaf", x=4, dc=3), dict(t="other"), dict(t="leaf", x=5, dc=4)]
+        post = [P(7, [dict(t="leaf", x=6, dc=5)])]
+    elif kind == "l1info":
+        pre = [P(2, [dict(t="verify", r=1, x=1), dict(t="leaf", x=1, dc=0)]), P(3, [dict(t="verify", r=2, x=1), dict(t="leaf", x=2, dc=1)])]
+        hit = [dict(t="verify", r=3, x=2), dict(t="leaf", x=3, dc=2), dict(t="verify", r=1, x=2)]
+        post = [P(7, [dict(t="leaf", x=4, dc=3), dict(t="verify", r=2, x=2)])]
+    else:
+        return []
+    n = 40 if thorough else 10
+    out = []
+    for fk in ("ioread", "iowrite", "read"):
+        fr = sorted(rng.sample(range(1, 1000), n)) if fk != "iowrite" else sorted(rng.sample(range(1, 1000), max(3, n // 4)))
+        for f in fr:
+            fault = dict(kind=fk, at=0, r=-1 if fk == "read" else 1, frac=f)
+            ops = pre + [P(5, hit, fault), P(5, hit)] + post + [dict(op="restart"), P(9, [dict(t="leaf", x=7, dc=(6 if kind == "bridge" else 4))])]
+            out.append(dict(kind=kind, ops=ops))
     return out
 
 
@@ -190,6 +219,9 @@ def store_check(prop, model_cfgs, gen_cfgs, quick_n, thorough_n, kinds_note, inv
                 behs += [sparsify(x, rng) if rng.random() < 0.5 else x for x in picked]
             if extra_behaviours:
                 behs += extra_behaviours(rng, thorough)
+            if prop in ("C01", "C07", "C11"):
+                for k in sorted(set(b["kind"] for b in behs)):
+                    behs += fault_sweep(k, rng, thorough)
             fx = [b for k in sorted(set(b["kind"] for b in behs)) for b in fixture_behaviours(k, rng)]
             if prop != "C04":     # reorgs belong to C04 (and bring its known finding F10 with them)
                 fx = [b for b in fx if not any(o["op"] == "reorg" for o in b["ops"])]
